@@ -9,7 +9,7 @@ from bv.props import c08
 
 ID = "C06"
 LEVEL = "exploration"
-RULE = ("host declaration  p=Int(1) . [size fields] . d=Data(mode) . q=Int(1)  with mode in {constant, field, expression, callable, "
+RULE = ("host declaration  p=Int(1) . [size fields] . d=Data(mode) . q=Int(1) (q left out in one case in five: the byte string is the last field)  with mode in {constant, field, expression, callable, "
         "bytes marker, regex marker, end-of-string} x include_delimiter x search_buffer_length in {unset, 0, 1..12}, generic and "
         "generated code; inputs: bodies over the marker's own alphabet (partial and overlapping occurrences), marker position swept "
         "across the window edge (W-len(m)-2 .. W+2), marker absent, marker at the very end, empty values, size 0, negative size "
